@@ -64,8 +64,21 @@ Step(s, e) ==
       \* itself double n at every step) - the bounds (n+1) 1e-14 / (n+1) 1e-13 are then 1e-6 / 1e-5
       Sat(n) == IF n > 100000000 THEN 100000000 ELSE n
       SetE(r, X, n) == [E EXCEPT ![r] = [M |-> X, n |-> Sat(n)]]
-      Res(r, X, n) == <<SetE(r, X, n), T, ElemChecks(e, e.out, X, Sat(n))>>
-  IN CASE e.op = "reset" ->
+      \* A register leaves the domain (M = <<>>) when its exact value is not representable: a scaling group (C1)
+      \* multiplied up or down beyond 1e+-100.  Nothing is judged on it or on anything computed from it.
+      \* (1e+-100: products and squares of two in-range values stay clear of overflow and of the denormal range,
+      \* where a result such as r^2 in C1's inverse keeps only a few bits)
+      InRange(X) == RLeq(MaxAbs(X), Dec(1, 100)) /\ RLeq(Dec(1, -100), MaxAbs(X))
+      Undef(r) == <<[E EXCEPT ![r] = [M |-> <<>>, n |-> 0]], T, <<>>>>
+      Res(r, X, n) == IF InRange(X) THEN <<SetE(r, X, n), T, ElemChecks(e, e.out, X, Sat(n))>> ELSE Undef(r)
+      Operands == CASE e.op \in {"compose"} -> {e.a, e.b}
+                    [] e.op \in {"inverse", "rplus", "copy", "cast", "ode", "lift"} -> {e.a}
+                    [] e.op = "muleq" -> {e.dst, e.a}
+                    [] e.op = "pluseq" -> {e.dst}
+                    [] e.op = "repeat" -> (IF e.sub = "muleq" THEN {e.dst, e.a} ELSE {e.dst})
+                    [] OTHER -> {}
+  IN IF \E r \in Operands : E[r].M = <<>> THEN Undef(e.dst) ELSE
+     CASE e.op = "reset" ->
             <<[r \in 0..(NE - 1) |-> [M |-> MId(Dim(g)), n |-> 0]], [r \in 0..(NT - 1) |-> VZero(Dof(g))], <<>>>>
        [] e.op = "sete" ->
             \* a constructor-made element: its logged coefficients define the exact starting value
